@@ -95,7 +95,7 @@ def _clone(v, memo):
         if id(v) in memo:
             return memo[id(v)]
         n = SList(v.ref, v.length, v.fn, None, v.kind)
-        n.transient = getattr(v, 'transient', None)
+        n.transients = dict(getattr(v, 'transients', {}) or {})
         memo[id(v)] = n
         if v.items is not None:
             n.items = [_clone(x, memo) for x in v.items]
@@ -271,8 +271,8 @@ class Executor:
         outs = []
         for s, v in self.eval_forks(node.value, state):
             for tgt in node.targets:
-                if isinstance(v, SList) and v.items == [] and isinstance(tgt, ast.Name):
-                    v.kind = getattr(self.ctx.contract, 'list_kinds', {}).get(tgt.id, v.kind)
+                if isinstance(v, SList) and isinstance(tgt, ast.Name) and tgt.id in getattr(self.ctx.contract, 'list_kinds', {}):
+                    v.kind = self.ctx.contract.list_kinds[tgt.id]
                 self.assign(tgt, v, s, node)
             outs.append(Outcome('normal', s))
         return outs
@@ -323,7 +323,8 @@ class Executor:
             key = '%s in %s' % (node.target.id, ast.unparse(node.iter))
         else:
             key = 'while %s' % ast.unparse(node.test)
-        inv = ctx.contract.invariant(key, ctx.inst)
+        ordinal0 = getattr(ctx, 'loop_ordinals', {}).get(id(node))
+        inv = ctx.contract.invariant('%s#%s' % (key, ordinal0), ctx.inst) or ctx.contract.invariant(key, ctx.inst)
         if inv is None:
             # fallback: the loop header was edited; attach the invariant registered for the loop's ordinal position
             ordinal = getattr(ctx, 'loop_ordinals', {}).get(id(node))
@@ -336,6 +337,9 @@ class Executor:
                 return self.unroll_for(node, state, key)
             raise Unsupported('no invariant for loop `%s` (line %d)' % (key, node.lineno))
         outs = []
+        entry = {k: (v.snapshot() if isinstance(v, (SList, STT)) else v) for k, v in state.env.items()}
+        inv0 = inv
+        inv = lambda V, i, k, inv0=inv0, entry=entry: inv0(_with_entry(V, entry), i, k)  # noqa
         if kind == 'for':
             args = [self.ev(a, state) for a in node.iter.args]
             lo, hi, step = (0, args[0], 1) if len(args) == 1 else (args[0], args[1], 1) if len(args) == 2 else tuple(args)
@@ -435,6 +439,7 @@ class Executor:
         """forget everything the loop body may change"""
         names = set(extra)
         objs = []
+        calls_ = []
         for n in ast.walk(ast.Module(body=list(body), type_ignores=[])):
             if isinstance(n, ast.Name) and isinstance(n.ctx, ast.Store):
                 names.add(n.id)
@@ -449,15 +454,45 @@ class Executor:
                             objs.append((sub, 'attr'))
             if isinstance(n, ast.Call) and isinstance(n.func, ast.Attribute) and n.func.attr in ('append', 'extend', 'insert', 'reverse', 'pop'):
                 objs.append((n.func.value, n.func.attr != 'reverse'))
+            elif isinstance(n, ast.Call):
+                calls_.append(n)
         done = set()
         self.ctx.muted = True       # the scan only identifies the mutated objects; it generates no obligations
         try:
             self._havoc_objs(objs, state, done)
+            self._havoc_callee_effects(calls_, state, done)
         finally:
             self.ctx.muted = False
         for nm in names:
             if nm in state.env:
                 state.env[nm] = self.havoc_value(state.env[nm], state, nm)
+
+    def _havoc_callee_effects(self, calls_, state, done):
+        """lists mutated by contract callees inside the loop body (declared by Contract.mutated)"""
+        from vt.e1 import calls as C
+        reg = self.ctx.registry
+        for n in calls_:
+            c = None
+            args = None
+            try:
+                if isinstance(n.func, ast.Name) and ('fn:' + n.func.id) in reg:
+                    c = reg['fn:' + n.func.id]
+                    args = [self.ev(a, state) for a in n.args]
+                elif isinstance(n.func, ast.Attribute):
+                    recv = self.ev(n.func.value, state)
+                    if isinstance(recv, STT) and ('TT.' + n.func.attr) in reg:
+                        c = reg['TT.' + n.func.attr]
+                        args = [recv] + [self.ev(a, state) for a in n.args]
+                if c is None:
+                    continue
+                kw = {k.arg: self.ev(k.value, state) for k in n.keywords if k.arg}
+                A = c.bind(args, kw)
+            except Exception:
+                continue
+            for lst in c.mutated(A):
+                if isinstance(lst, SList) and id(lst) not in done:
+                    done.add(id(lst))
+                    self.havoc_list(lst, state, False)
 
     def _havoc_objs(self, objs, state, done):
         for expr, grows in objs:
@@ -501,6 +536,7 @@ class Executor:
         if grows:
             state.assume(zi(length) >= 0)
         lst.items = None
+        lst.transients = {}
         lst.length = length
         lst.kind = kind if not kind.startswith('optarr') else lst.kind
         lst.fn = sym_elem_fn(kind, state)
@@ -1122,8 +1158,13 @@ def sym_elem_fn(kind, state):
     raise Unsupported('element kind %s' % kind)
 
 
+def _with_entry(V, entry):
+    V.entry = entry
+    return V
+
+
 class View:
-    """what invariants and contract clauses see of a state"""
+    """what invariants and contract clauses see of a state (entry: values at the entry of the loop being verified)"""
 
     def __init__(self, state, ex):
         self.state, self.ex = state, ex
